@@ -23,6 +23,16 @@ pub struct Finding {
     pub op_index: usize,
 }
 
+/// completed remaps of the event map in this process (sequential modes), counted inside the
+/// vendored dependency whichever code path asked for them
+pub static SEQ_REMAPS: std::sync::atomic::AtomicU64 = std::sync::atomic::AtomicU64::new(0);
+
+fn seq_map_hook(name: &'static str) {
+    if name == "mmap:resize_done" {
+        let _ = SEQ_REMAPS.fetch_add(1, std::sync::atomic::Ordering::SeqCst);
+    }
+}
+
 #[derive(Clone, Debug)]
 pub struct Known {
     pub props: &'static [&'static str],
@@ -85,6 +95,8 @@ pub struct Sim {
     last_obs: Option<Obs>,
     pending_crash: Option<u32>,
     pending_fail: Option<u32>,
+    /// completed remaps of the event map when the current store began
+    remaps_before: u64,
     pending_starve: bool,
     pending_fsize: Option<u8>,
     /// end the run without a finding (the state left is one no property speaks about)
@@ -137,6 +149,7 @@ impl Sim {
             last_obs: None,
             pending_crash: None,
             pending_fail: None,
+            remaps_before: 0,
             pending_starve: false,
             pending_fsize: None,
             stop: false,
@@ -488,6 +501,7 @@ impl Sim {
     /// for the forked fidelity child: run, never clean up (the process is expected to be killed)
     pub fn run_no_cleanup(mut self, ops: &[Op]) -> bool {
         pocket_db::verif::install(Some(self.hooks.clone()));
+        mmap_append::verif_set_hook(Some(seq_map_hook));
         let _ = fs::create_dir_all(&self.scratch);
         if self.open_store(0).is_err() {
             return false;
@@ -507,6 +521,7 @@ impl Sim {
 
     pub fn run(mut self, ops: &[Op]) -> RunResult {
         pocket_db::verif::install(Some(self.hooks.clone()));
+        mmap_append::verif_set_hook(Some(seq_map_hook));
         pocket_types::verif_clock::set(None);
         let _ = fs::create_dir_all(&self.scratch);
         let mut finding = None;
@@ -914,8 +929,11 @@ impl Sim {
         (clause.to_string(), props)
     }
 
+    /// did the map grow (or was it remapped: a store that failed earlier may have lengthened the
+    /// file without remapping, so that a later growth remaps at an unchanged file length) since the
+    /// current store began?
     fn grew_since(&self, before_len: u64) -> bool {
-        file_len(&self.dir.join("event.map")) != before_len
+        file_len(&self.dir.join("event.map")) != before_len || SEQ_REMAPS.load(std::sync::atomic::Ordering::SeqCst) != self.remaps_before
     }
 
     // ------------------------------------------------------------ store
@@ -924,6 +942,7 @@ impl Sim {
         let ev = self.encoded(e);
         self.model.note_event(e);
         let map_len_before = file_len(&self.dir.join("event.map"));
+        self.remaps_before = SEQ_REMAPS.load(std::sync::atomic::Ordering::SeqCst);
 
         // --- the kernel refuses to let the files grow (RLIMIT_FSIZE) while this store runs
         if let Some(mode) = self.pending_fsize.take() {
@@ -972,8 +991,11 @@ impl Sim {
         // --- fail-point enumeration (C12): every fail-point occurrence of this store fails once
         let mut fail_plan: Vec<u32> = vec![];
         let enumerate = self.cfg.mode == Mode::FailEnum;
+        // (k >= 1000: fail the (k - 1000)-th call and do not retry - the caller gives the event up)
+        let mut abandon = false;
         if let Some(k) = self.pending_fail.take() {
-            fail_plan.push(k);
+            abandon = k >= 1000;
+            fail_plan.push(k % 1000);
         }
         let mut k_enum: u32 = 0;
         loop {
@@ -995,6 +1017,13 @@ impl Sim {
                 (StoreOutcome::Injected(_), Some(name)) => {
                     self.stats.inc(&format!("fault/failpoint/{name}"));
                     self.log.push(format!("#{i} store {} injected {name}", short(&e.id)));
+                    if abandon && !enumerate {
+                        // the failed call may have enlarged (and moved) the map before the fault
+                        let grew = self.grew_since(map_len_before);
+                        if let Some(f) = self.check_refs(i, grew) {
+                            return Some(f);
+                        }
+                    }
                     let after = self.observe();
                     let diffs = common(obs::diff_all(&before, &after, &[]));
                     if !diffs.is_empty() {
@@ -1014,6 +1043,10 @@ impl Sim {
                     self.last_obs = Some(after);
                     self.disturb("failpoint");
                     self.failed_store_since_restart = true;
+                    if abandon && !enumerate {
+                        self.stats.inc("fault/failed_store_not_retried");
+                        return None;
+                    }
                     k_enum += 1;
                     continue;
                 }
@@ -1374,6 +1407,11 @@ impl Sim {
                 .map(|_| u64::from_le_bytes(b))
                 .unwrap_or(map_len);
             return used + 90;
+        }
+        if mode == 9 || mode == 10 {
+            // room for two / three more chunks of the map: a store that needs more enlargements than
+            // that fails in the middle of its growth loop
+            return map_len + (mode as u64 - 7) * 2048;
         }
         match mode % 8 {
             0 => map_len,
